@@ -130,8 +130,19 @@ def run_case(case) -> Result:
     return Result(viol, nontrivial, labels)
 
 
+def _grid():
+    """every zone x every timeframe on fixed streams that start on a transition day (or the base day)"""
+    for tz, off, trans in ZONES:
+        for tf in sorted(set(TFS)):
+            tfs = tf_seconds(tf)
+            for day in (trans + [gs.BASE_DAY])[:3]:
+                for start_off, step in ((0, max(1, tfs // 2)), (3600 + 1800 + 1, max(1, tfs // 3)), (7200 - tfs, tfs)):
+                    rows = [[day + start_off + i * step, 5 + i % 3, 9 + i % 3, 4, 6 + i % 2, i % 4] for i in range(24)]
+                    yield {"tz": tz, "tf": tf, "stream": rows, "preload": 5, "chunks": [1, 1, 7, 2], "fill": day != gs.BASE_DAY, "on_transition": day in trans, "mode": "manager"}
+
+
 def shards(tier):
     n = 600 if tier == "quick" else 15000
-    return [Shard(f"gen-{i}", lambda: cases(), n, subject="zone") for i in range(14)] + [
+    return [Shard("enum-zone-x-timeframe", cases=_grid, subject="zone", exhaustive=True)] + [Shard(f"gen-{i}", lambda: cases(), n, subject="zone") for i in range(14)] + [
         Shard(f"gen-long-{i}", lambda: cases(max_n=90), n // 3, subject="zone", cost=2) for i in range(2)
     ]
